@@ -138,7 +138,7 @@ fn lane_laws<I: Interpolate<i16>>(interp: &I) {
     kani::cover!(s == 4 && r[0] < r[4] && r[4] < r[7], "W: a 3-cycle permutation of distinct values");
 }
 
-//@ prop=C19,C01 tier=quick mem=10 timeout=3600 flags=modelmap uses=cut inst="quantiles_mut(8 ascending q, Midpoint) on Array1<i16> len 3 and on a symbolic permutation of it" bounds="i8-range payloads, all 6 permutations; unwind 12"
+//@ prop=C19,C01:thorough tier=quick mem=10 timeout=3600 flags=modelmap uses=cut inst="quantiles_mut(8 ascending q, Midpoint) on Array1<i16> len 3 and on a symbolic permutation of it" bounds="i8-range payloads, all 6 permutations; unwind 12"
 #[kani::proof]
 #[kani::unwind(12)]
 fn c19_lane_laws_midpoint() {
@@ -184,7 +184,7 @@ fn relabel<I: Interpolate<u8>>(interp: &I) {
     kani::cover!(r[0] != r[2] && f[3] == 255 && f[0] == 0, "W: distinct results, extreme relabelling");
 }
 
-//@ prop=C19,C01 tier=quick mem=8 timeout=3600 flags=modelmap uses=cut inst="Nearest on Array1<u8> len 3 vs the relabelled lane" bounds="codes in 0..=3, every strictly increasing f: {0..3} -> u8, 4 q; unwind 10"
+//@ prop=C19,C01:thorough tier=quick mem=8 timeout=3600 flags=modelmap uses=cut inst="Nearest on Array1<u8> len 3 vs the relabelled lane" bounds="codes in 0..=3, every strictly increasing f: {0..3} -> u8, 4 q; unwind 10"
 #[kani::proof]
 #[kani::unwind(10)]
 fn c19_relabel_nearest() {
